@@ -6,6 +6,9 @@ Streams (DESIGN.md 3 C19, docs/C19.md):
   json       mutated serialisations -> deserialize_value / from_dict, model (unit 171) vs implementation
   classes    every votelib class carrying to_dict, default + random constructor arguments to depth 4:
              to_dict equality after from_dict(json.loads(json.dumps(to_dict(x)))) and behaviour equality
+  signatures the class table generated from the source (Gen/Signatures.v, props/sigcheck.py) against the interpreter: kind and keys of
+             to_dict, constructor parameters, identity of the arguments recorded as stored verbatim on every object of the classes stream,
+             to_dict = class name + serialised arguments for the classes whose premise is proved (Props/GenTie_Signatures.v)
   blt        random elections through io.blt.dumps/loads, model (unit 172) vs implementation + the
              declarative clause loads(dumps(x)) == x
   blt-tokens random token lines rendered to text -> io.blt.loads vs model load_lines (unit 173), incl. rejections
@@ -16,13 +19,13 @@ Streams (DESIGN.md 3 C19, docs/C19.md):
   stv        random elections through io.stv.dumps/loads (both modes), declarative clause on the implementation
   malformed  mutated / truncated BLT and STV texts: a result or the format's parse error, nothing else
 """
-import os, sys, json, glob, math, inspect, random as _random, importlib, pkgutil, typing, string
+import os, sys, json, glob, math, inspect, random as _random, importlib, pkgutil, typing, string, collections
 from fractions import Fraction
 from decimal import Decimal
 import common
 from common import sx, ok
 from units import BLOCK
-from props import c19_stv
+from props import c19_stv, sigcheck
 
 ID = 'C19'
 LEVEL = 'proof'
@@ -30,7 +33,10 @@ U0 = BLOCK['C19']
 TIE = {'persist.serialize_value / deserialize_value / deserialize_typed / deserialize_class / from_dict': 'correspondence (units 170, 171)',
        'io.blt dump_lines / load_lines (token level)': 'correspondence (units 172, 173)',
        'io.stv dump_lines / dumps / load_lines / loads (character level, Model/StvFile.v)': 'correspondence (units 174, 175; closed tables unit 176 checked exhaustively over all code points)',
-       'to_dict of the 109 votelib classes': 'implementation-side clauses only (to_dict equality + behaviour equality)'}
+       'to_dict of the votelib classes': 'translator (tools/py2v.py part 5: Gen/Signatures.v, the constructor table read from the source) + '
+                                         'Props/GenTie_Signatures.v (class_ok decided for every class of the table; the listed exceptions: implementation-side '
+                                         'clauses only - to_dict equality + behaviour equality); the table itself is compared with the interpreter on every run '
+                                         '(signatures stream: to_dict kind and keys, constructor parameters, identity of stored arguments)'}
 RULE = ('corpus; codec: random values of the pval grammar to depth 4 (atoms, Fraction, Decimal incl. exponents and specials, tuple, frozenset, '
         'list, set, str-keyed and typed dicts incl. reserved keys, objects of three harness classes incl. an unloadable one, resolvable and '
         'unresolvable callables, opaque objects) saved and reloaded directly and through JSON text, compared with the model; json: mutated '
@@ -49,15 +55,26 @@ RULE = ('corpus; codec: random values of the pval grammar to depth 4 (atoms, Fra
 PARTIAL = ['STV: Decimal multipliers are an oracle of the model (Decimal(str) is not modelled); Decimal + Decimal rounding of a repeated ranking, the 4300-digit '
            'int limit, candidates=None, shared ranks and the character level of the BLT content of a ballots=blt file are outside the model',
            'character level of BLT (str(num), split, # comments, quoting): not modelled, exercised by the blt / malformed streams',
-           'per-class premise "the constructor stores its parameters unchanged" (classes stream): tested, not proved',
+           'per-class premise "the constructor stores its parameters unchanged": read from the source and proved for the classes with class_ok '
+           '(Props/GenTie_Signatures.v); for the listed exception classes (normalising constructors, hand-written to_dict, serialize_params, sites of known '
+           'findings) it is tested by the classes stream, not proved',
            'C19_rejects_full_statement (every non-reloadable value is refused when saving): refuted, see known findings']
 TRUSTED = ['CPython json, decimal (Decimal(str(d)) == d, str canonical) and fractions modules',
+           'tools/py2v.py part 5: the reading rules of class bodies (what counts as a verbatim store of a constructor parameter, how to_dict keys are '
+           'resolved); tied to the interpreter on every run by the signatures stream (harness/props/sigcheck.py)',
            'harness instantiation of the record uenv of Model/StvFile.v (Unicode tables of the characters of a case, Decimal values of its multiplier strings) '
            'and of the BLT reader argument (votelib.io.blt.load_lines on every suffix of the lines) from the running interpreter',
            'harness encoding of Python values as pval/jval wire terms (harness/props/c19.py to_wire/from_py)']
 ASSUMPTIONS = ['the environment record of Model/Persist.v (identifier tables, Decimal parser, class and callable tables) is instantiated by the '
                'harness from the running interpreter for the characters / classes / callables it uses']
 EXTRA_PROOF_FILES = []
+# the per-class premise read from the source (tools/py2v.py part 5 -> Gen/Signatures.v); with the fallback: when the translator does
+# not produce the table the premise is what it was before - tested per class by the classes stream
+GEN_TIES = {'Signatures': 'Props/GenTie_Signatures.v'}
+# what this check treats specially, per class: the sites of the recorded findings.  The exception list of Props/GenTie_Signatures.v
+# must name exactly these under known:<id> (sigcheck / signature_exceptions below)
+SPECIAL_CLASSES = {'C19-closures': ['votelib.evaluate.openlist.ThresholdOpenList'],
+                   'C19-rank-defaultdict': ['votelib.vote.RankedVoteValidator', 'votelib.vote.EnumScoreVoteValidator', 'votelib.vote.RangeVoteValidator']}
 
 E = common.E
 E_ATTR = 15
@@ -1034,11 +1051,119 @@ def check_object(ctx, clsname, obj, kwargs, calls, stream='classes'):
     return None, None
 
 
+def signature_report(ctx, name, kwargs, problems, what):
+    case = dict(stream='signatures', cls=name, args=describe(kwargs))
+    ex = sigcheck.kwargs_expr(kwargs)
+    if ex is not None:
+        case['expr'] = ex
+    ctx.checker_false += 1
+    ctx.violations.append(dict(stream='signatures', case=case, impl='; '.join(problems)[:1500], model=what, why='%s: %s' % (what, problems[0][:400])))
+
+
+def signature_setup(ctx, live_classes):
+    """the generated table against the interpreter, the exception list against what this check treats specially; returns the per-run
+    state used by signature_instance (None: no table, the premise stays tested only)"""
+    table = sigcheck.load_table()
+    if table is None or 'Signatures' in ctx.fallback:
+        ctx.notes.append('signatures: no generated table (translator status %s): the per-class premise is only tested this run'
+                         % json.dumps(ctx.gen_status.get('Signatures', {}))[:200])
+        return None
+    exc = sigcheck.read_exceptions()
+    st = dict(table=table, exc=exc, checked=0, bad=0, per_class={}, unexpected=[])
+    for name, what in sigcheck.table_vs_live(table, live_classes):
+        st['bad'] += 1
+        ctx.disagreements += 1
+        ctx.violations.append(dict(stream='signatures', case=dict(stream='signatures', cls=name, kind='table-vs-interpreter'), impl=what, model='Gen/Signatures.v',
+                                   why='the generated class table (tools/py2v.py part 5) differs from the running library: %s: %s' % (name, what)))
+    ser = [c for c in table['classes'] if sigcheck.serialisable(c)]
+    ok = [c['name'] for c in ser if sigcheck.class_ok(c)]
+    st['ok'] = set(ok)
+    st['unexpected'] = [c['name'] for c in ser if c['name'] not in st['ok'] and c['name'] not in exc]
+    for n_ in st['unexpected']:
+        c = table['by_name'][n_]
+        why = [('%s: %s' % (p['name'], p['store'][0] + ('' if p['store'][0] in ('Stored', 'NotStored') else ' ' + str(p['store'][1][1] if p['store'][0] == 'Transformed' else p['store'][1]))))
+               for p in c['params'] if p['store'][0] != 'Stored']
+        ctx.notes.append('signatures: %s has to_dict (%s) but neither the premise class_ok nor an entry in the exception list: keys %s, parameters %s'
+                         % (n_, c['todict'], c['keys'], why or [p['name'] for p in c['params']]))
+    # (b) the exception list coincides with what this check treats specially
+    problems = []
+    known_ids = {k['id'] for k in ctx.known}
+    for cname, reason in exc.items():
+        c = table['by_name'].get(cname)
+        if c is None or not sigcheck.serialisable(c):
+            problems.append('%s is listed as an exception but is not a class with to_dict' % cname)
+            continue
+        if reason.startswith('known:'):
+            kid = reason[6:]
+            if kid not in known_ids or kid not in KNOWN_TAGS.values() or cname not in SPECIAL_CLASSES.get(kid, []):
+                problems.append('%s is excepted as the site of %s, which this check does not treat specially for that class' % (cname, kid))
+        elif reason == 'hand-written':
+            if c['todict'] not in ('TDHand', 'TDHandInherited'):
+                problems.append('%s is excepted as hand-written, its to_dict is %s' % (cname, c['todict']))
+        elif reason == 'serialize_params':
+            if c['keys_from'] != 'serialize_params':
+                problems.append('%s is excepted for serialize_params, its keys come from %s' % (cname, c['keys_from']))
+        elif reason == 'normalised':
+            if c['todict'] not in ('TDDecorated', 'TDInherited') or not any(p['store'][0] == 'Transformed' for p in c['params']):
+                problems.append('%s is excepted as normalising, the table shows no transformed parameter' % cname)
+        else:
+            problems.append('%s: unknown exception reason %r' % (cname, reason))
+        if cname in st['ok']:
+            ctx.notes.append('signatures: %s is listed as an exception (%s) but has the premise class_ok now: the entry is stale' % (cname, reason))
+    for kid, names in SPECIAL_CLASSES.items():
+        for cname in names:
+            if exc.get(cname) != 'known:' + kid and cname not in st['ok']:
+                problems.append('%s is treated specially here (%s) but is not excepted under that finding' % (cname, kid))
+    if problems:
+        ctx.broken('signatures-exceptions', 'the exception list of Props/GenTie_Signatures.v does not coincide with what the check treats specially: ' + '; '.join(problems))
+    return st
+
+
+def signature_instance(ctx, st, name, cls, obj, kwargs):
+    c = st['table']['by_name'].get(name)
+    if c is None:
+        return
+    strict = name in st['ok'] or name in st['unexpected']
+    tb, pb = sigcheck.check_instance(c, cls, obj, kwargs, strict)
+    st['checked'] += 1
+    pc = st['per_class'].setdefault(name, [0, 0])
+    pc[0] += 1
+    pc[1] += 1 if kwargs else 0
+    if tb:
+        st['bad'] += 1
+        signature_report(ctx, name, kwargs, tb, 'the generated class table (Gen/Signatures.v) records a verbatim store the object does not show')
+    elif pb:
+        st['bad'] += 1
+        signature_report(ctx, name, kwargs, pb, ('the premise of the round-trip theorem (class_ok, proved from the source table) fails on the implementation'
+                                                 if name in st['ok'] else
+                                                 'to_dict does not return the constructor arguments and the class is not a listed exception (premise class_ok broken)'))
+
+
+def signature_finish(ctx, st):
+    if st is None:
+        return
+    table, exc = st['table'], st['exc']
+    ser = [c for c in table['classes'] if sigcheck.serialisable(c)]
+    reasons = collections.Counter(r.split(':')[0] for n_, r in exc.items())
+    never = sorted(n_ for n_ in exc if st['per_class'].get(n_, [0, 0])[1] == 0)
+    if never:
+        ctx.notes.append('signatures: exception classes not constructed with arguments this run (their premise was not exercised): %s' % never)
+    stores = collections.Counter(p['store'][0] for c in ser for p in c['params'])
+    ctx.dist['signatures:classes-with-premise-proved'] = len(st['ok'])
+    ctx.dist['signatures:exception-classes'] = len(exc)
+    ctx.dist['signatures:objects-checked'] = st['checked']
+    ctx.streams['signatures'] = dict(cases=st['checked'] + len(table['classes']), deviations=st['bad'], classes_in_table=len(table['classes']),
+                                     classes_with_to_dict=len(ser), premise_proved=len(st['ok']), exceptions=dict(reasons),
+                                     unexpected=st['unexpected'], parameter_stores=dict(stores),
+                                     mutation_sites=sum(len(c['mutations']) for c in ser))
+
+
 def classes_stream(ctx, count_per_class):
     gen = ClassGen(ctx.rng)
     calls = panel()
     bad = 0
     n = 0
+    sig = signature_setup(ctx, gen.classes)
     for name, cls in gen.classes.items():
         objs = []
         if gen.default_ok(cls):
@@ -1060,6 +1185,8 @@ def classes_stream(ctx, count_per_class):
             n += 1
             ctx.evaluations += 1
             ctx.dist['stream:classes'] += 1
+            if sig is not None:
+                signature_instance(ctx, sig, name, cls, o, kw)      # before any method of the object is called
             v, tag = check_object(ctx, name, o, kw, calls)
             if kw:
                 ctx.nontrivial.add(common.case_hash(dict(cls=name, args=describe(kw))))
@@ -1068,6 +1195,7 @@ def classes_stream(ctx, count_per_class):
                 report_impl(ctx, v, tag)
     ctx.dist['classes:distinct'] = len(gen.classes)
     ctx.streams['classes'] = dict(cases=n, deviations=bad, classes=len(gen.classes))
+    signature_finish(ctx, sig)
 
 
 KNOWN_TAGS = {'closure': 'C19-closures', 'defaultdict': 'C19-rank-defaultdict', 'stv-hostile-name': 'C19-stv-name-chars', 'stv-empty-ranking': 'C19-stv-empty-ranking',
@@ -1539,6 +1667,35 @@ def replay_class(ctx, case):
         report_impl(ctx, v, tag)
 
 
+def replay_signature(ctx, case):
+    """a case of the signatures stream: the class with the recorded arguments (expr) - or, when the arguments could not be written
+    down, fresh random arguments for that class"""
+    live = all_classes()
+    sig = signature_setup(ctx, live)
+    if sig is None or case.get('kind') == 'table-vs-interpreter':
+        return
+    name = case['cls']
+    cls = live.get(name)
+    if cls is None:
+        ctx.broken('harness', 'class %s of the replay file no longer exists' % name)
+        return
+    if case.get('expr'):
+        kw = sigcheck.eval_kwargs(case['expr'])
+        ctx.evaluations += 1
+        signature_instance(ctx, sig, name, cls, cls(**kw), kw)
+        return
+    gen = ClassGen(ctx.rng)
+    for _ in range(200):
+        try:
+            o, kw = gen.instance(cls, ctx.rng.randint(1, 4))
+        except BaseException as exc:   # noqa
+            if isinstance(exc, (KeyboardInterrupt, SystemExit)):
+                raise
+            continue
+        ctx.evaluations += 1
+        signature_instance(ctx, sig, name, cls, o, kw)
+
+
 # ------------------------------------------------------------------------------------------------ driver
 def corpus():
     for p in sorted(glob.glob(os.path.join(common.VERIF, 'corpus', ID, '*.json'))):
@@ -1575,6 +1732,8 @@ def dispatch_case(ctx, case, name='replay'):
         replay_malformed(ctx, case)
     elif s == 'classes':
         replay_class(ctx, case)
+    elif s == 'signatures':
+        replay_signature(ctx, case)
     else:
         ctx.broken('harness', 'unknown corpus stream %r' % s)
 
